@@ -213,6 +213,56 @@ theorem parse_render {v : Version} (h : WFv v) : Spec.parseVersion (render v) = 
   rw [recognise_complete (render_grammar h)]
   simp [rawOf_toVersion h]
 
+/-- the canonical spelling determines the version -/
+theorem render_injective {v w : Version} (hv : WFv v) (hw : WFv w) (h : render v = render w) :
+    v = w := by
+  have := parse_render hv
+  rw [h, parse_render hw] at this
+  simpa using this.symm
+
+/-- every field below 2^63 (what `strconv.Atoi` can return) -/
+def Small (v : Version) : Prop :=
+  (∀ n ∈ v.numbers, n ≤ maxInt) ∧ v.preNum ≤ maxInt ∧ v.postNum ≤ maxInt ∧ v.rev ≤ maxInt
+
+instance (v : Version) : Decidable (Small v) := by unfold Small; infer_instance
+
+theorem rawOf_fields_small {v : Version} (h : WFv v) (hs : Small v) :
+    (rawOf v).fields.all (fun f => digitsToNat f ≤ maxInt) = true := by
+  obtain ⟨_, _, _, _, hpn, hqn⟩ := h
+  obtain ⟨h1, h2, h3, h4⟩ := hs
+  rw [List.all_eq_true]
+  intro f hf
+  simp only [RawVersion.fields, rawOf, List.mem_append, List.mem_map, List.mem_cons,
+    List.not_mem_nil, or_false] at hf
+  simp only [decide_eq_true_eq]
+  rcases hf with ⟨n, hn, rfl⟩ | rfl | rfl | rfl
+  · rw [digitsToNat_natToDec]; exact h1 n hn
+  · split
+    · exact Nat.zero_le _
+    · rw [digitsToNat_decOpt]; exact h2
+  · split
+    · exact Nat.zero_le _
+    · rw [digitsToNat_decOpt]; exact h3
+  · rw [digitsToNat_decOpt]; exact h4
+
+/-- the code's parser reaches every well-formed version whose fields are below 2^63 -/
+theorem impl_parse_render {v : Version} (h : WFv v) (hs : Small v) :
+    Impl.parseVersion (render v) = some v := by
+  unfold Impl.parseVersion
+  rw [recognise_complete (render_grammar h)]
+  simp [rawOf_fields_small h hs, rawOf_toVersion h]
+
+theorem fields_small_toVersion {r : RawVersion}
+    (h : r.fields.all (fun f => digitsToNat f ≤ maxInt) = true) : Small r.toVersion := by
+  rw [List.all_eq_true] at h
+  simp only [RawVersion.fields, List.mem_append, List.mem_cons, List.not_mem_nil, or_false,
+    decide_eq_true_eq] at h
+  refine ⟨?_, h _ (.inr (.inl rfl)), h _ (.inr (.inr (.inl rfl))), h _ (.inr (.inr (.inr rfl)))⟩
+  intro n hn
+  simp only [RawVersion.toVersion, List.mem_map] at hn
+  obtain ⟨d, hd, rfl⟩ := hn
+  exact h d (.inl hd)
+
 /-! ## everything the parser returns is well-formed -/
 
 theorem pre_mem_values {tok : String} {val : Nat} (h : (tok, val) ∈ Generated.preSwitch) :
